@@ -111,6 +111,18 @@ def run_roundtrip(rng, obs):
         ck(list(s2.values) == nv + vals[len(nv):] and same_pm(pos, wts, s2), 'scenario.update replaces exactly the leading values',
            observed=list(s2.values)[:5], expected=(nv + vals[len(nv):])[:5])
         ck(list(s.values) == vals, 'updating a loaded copy leaves the original scenario values alone')
+        # the list of values the caller built the scenario from stays the caller's: updating the scenario (or a second scenario built from
+        # the same list, or a shallow copy taken earlier) changes that scenario only
+        import copy
+        mine = list(vals)
+        s3 = scenario(compose(pos, wts), mine)
+        s4 = scenario(compose(pos, wts), mine)
+        snap = copy.copy(s3)
+        s3.update(exp + nv)
+        ck(list(s3.values) == nv + vals[len(nv):], 'scenario.update replaces exactly the leading values', observed=list(s3.values)[:5], expected=(nv + vals[len(nv):])[:5], built_from='a list the caller keeps')
+        ck(mine == vals, 'update changes exactly the addressed scenario: the list it was built from is left as it was', observed=mine[:5], expected=vals[:5])
+        ck(list(s4.values) == vals, 'update changes exactly the addressed scenario: a second scenario built from the same list is left as it was', observed=list(s4.values)[:5], expected=vals[:5])
+        ck(list(snap.values) == vals, 'update changes exactly the addressed scenario: a copy taken before the update is left as it was', observed=list(snap.values)[:5], expected=vals[:5])
     obs.nontrivial = nontrivial_shape(pts, wts) or has_vals
     obs.notes = {'nparams': len(params), 'scenario': has_vals}
 
